@@ -1,5 +1,7 @@
 """Loop ties / function-body ties of cnvlib/call.py (and of the row masks of cnvlib/cnary.py and the `call` command's
-argument checks in cnvlib/commands.py) for properties C01 and C02, second batch (the first batch is call.py).  One
+argument checks in cnvlib/commands.py) for properties C01 and C02, second batch (the first batch is call.py; this file's
+name sorts last so that tools/fn_selftest.py, which draws the inputs of all specs from one random stream in file order,
+gives every earlier spec the inputs it had before).  One
 generated module per tie; the theorems are in Proofs/Fn<Module>.v and restated at the end of Props/C01.v / Props/C02.v.
 
 FnCallFinish     do_call, the WHOLE statement `if method != "none": outarr["cn"] = absolutes.round().astype("int");
@@ -8,9 +10,10 @@ FnCallFinish     do_call, the WHOLE statement `if method != "none": outarr["cn"]
 FnCallPureRow    absolute_pure: ONE ITERATION of `for i, row in enumerate(cnarr)` = the `absolutes` of call_row on the
                  no-purity path (call_row_pure)                                               (C01_source_pure_row)
 FnCallClonalRow  absolute_dataframe's `df["absolute"] = df.apply(lambda row: _log2_ratio_to_absolute(...), axis=1)` (the
-                 function applied per row), absolute_clonal's `return df["absolute"]`, do_call's `.clip(lower=0)`: composed
-                 = the `absolutes` / cn / rewritten ratio of call_row on the purity-adjusted path (call_row_purity)
-                                                                      (C01_source_clonal_row, C01_source_dataframe_row)
+                 function applied per row, alone and from the call of get_as_dframe_and_set_reference_and_expect_copies on),
+                 absolute_clonal WHOLE (the call of absolute_dataframe, `return df["absolute"]`), do_call's `.clip(lower=0)`:
+                 the chain = the `absolutes` / cn / rewritten ratio of call_row on the purity-adjusted path (call_row_purity)
+                                                 (C01_source_clonal_row, C01_source_clonal_calls, C01_source_dataframe_row)
 FnCallRowClass   cnary.py chr_x_label, chr_y_label, parx_filter, chr_x_filter, pary_filter, chr_y_filter, WHOLE, per row: the
                  generated labels = x_label / y_label, the generated masks of a row = its row_class; composed with
                  FnCallRefExpect / FnCall's log2_ratios      (C01_source_labels, _row_class, _row_class_auto, _row_copies, _row_log2)
@@ -31,8 +34,11 @@ translator refuses the module, which the check reports as a broken tie):
   FnCallPureRow    `_log2_ratio_to_absolute_pure(row.log2, ref_copies)` -> `(row.log2, ploidy)` KILLED ; the row's
                    `is_haploid_x_reference` -> `False` KILLED ; `ref_copies * 2**log2_ratio` -> `... + 1` KILLED
   FnCallClonalRow  lambda arguments `row["reference"], row["expect"]` swapped KILLED ; `.clip(lower=0)` -> `lower=1` KILLED ;
-                   the division by purity dropped KILLED ; absolute_clonal `return df["expect"]` REFUSED (unsupported
-                   expression Subscript: the keyed input is gone) ; `axis=1` -> `axis=0` REFUSED (keyword arguments in a call)
+                   the division by purity dropped KILLED ; the two sex flags swapped in absolute_clonal's call of
+                   absolute_dataframe KILLED ; likewise in absolute_dataframe's call of get_as_dframe_... KILLED ;
+                   absolute_clonal `return df["expect"]` REFUSED (unsupported expression Subscript: not a declared column) ;
+                   `axis=1` -> `axis=0` REFUSED (keyword arguments in a call) ; `row["reference"]` -> `row.reference` REFUSED
+                   (the row is read other than as row['<column>'])
   FnCallRowClass   `x &= ~self.parx_filter(..)` -> `x &= self.parx_filter(..)` KILLED ; pary_filter `==` -> `!=` KILLED ;
                    "chrX" / "X" swapped in chr_x_label KILLED ; `self.end <= par2_end` -> `<` (pary_filter) KILLED ;
                    chr_y_label `.startswith("chr")` -> `("ch")` KILLED (behaviour-preserving on the two possible X labels)
@@ -78,6 +84,9 @@ def _guard_test(rel, fname, index, exc):
 
 _METHOD_TEST = _guard_test('cnvlib/call.py', 'do_call', 0, 'ValueError')
 _PURITY_TEST = _guard_test('cnvlib/commands.py', '_cmd_call', 0, 'RuntimeError')
+
+_ABS_ARGS = ['cnarr', 'ploidy', 'purity', 'is_haploid_x_reference', 'diploid_parx_genome', 'is_sample_female']
+_GET = 'get_as_dframe_and_set_reference_and_expect_copies'
 
 _ROW = [('self.chromosome', 'S', 'chromosome'), ('self.start', 'Z', 'start'), ('self.end', 'Z', 'end_')]
 
@@ -133,17 +142,30 @@ MODULES = {
              params=[('log2_ratio', 'Q'), ('ref_copies', 'Z')], ret='Q'),
         dict(name='_log2_ratio_to_absolute', coq='fn_clonalrow_abs',
              params=[('log2_ratio', 'Q'), ('ref_copies', 'Z'), ('expect_copies', 'Z'), ('purity', 'OQ')], ret='Q'),
-        dict(name='absolute_dataframe', coq='fn_dataframe_row',
-             py_params=['cnarr', 'ploidy', 'purity', 'is_haploid_x_reference', 'diploid_parx_genome', 'is_sample_female'],
+        # the function applied per row alone (the cells `row['c']` of the lambda are the row's `df['c']`)
+        dict(name='absolute_dataframe', coq='fn_dataframe_row', py_params=_ABS_ARGS,
              params=[('purity', 'OQ'),
-                     ("row['log2']", 'Q', 'log2'), ("row['reference']", 'Z', 'reference'), ("row['expect']", 'Z', 'expect')],
+                     ("df['log2']", 'Q', 'log2'), ("df['reference']", 'Z', 'reference'), ("df['expect']", 'Z', 'expect')],
              fragment=dict(first="df['absolute'] = ", last="df['absolute'] = "),
              returns=["df['absolute']"], ret='Q'),
-        # absolute_clonal: which column of absolute_dataframe's table it hands back
-        dict(name='absolute_clonal', coq='fn_clonal_column',
-             py_params=['cnarr', 'ploidy', 'purity', 'is_haploid_x_reference', 'diploid_parx_genome', 'is_sample_female'],
-             params=[("df['absolute']", 'Q', 'absolute_column')],
-             fragment=dict(first='return ', last='return '), ret='Q'),
+        # absolute_dataframe from the call of get_as_dframe_and_set_reference_and_expect_copies on: the callee's table is read
+        # through its columns log2 / reference / expect, function-typed inputs keyed `get_as_dframe_...['<column>']` (tables
+        # and the build are opaque ids) -- which argument goes where in the call, which column feeds which argument of
+        # _log2_ratio_to_absolute
+        dict(name='absolute_dataframe', coq='fn_dataframe_whole', py_params=_ABS_ARGS,
+             params=[('cnarr', 'Z', 'cnarr_id'), ('ploidy', 'Z'), ('purity', 'OQ'), ('is_haploid_x_reference', 'B'),
+                     ('diploid_parx_genome', 'Z', 'build_id'), ('is_sample_female', 'B'),
+                     (_GET + "['log2']", 'F:Z,Z,B,Z,B>Q', 'log2_of'), (_GET + "['reference']", 'F:Z,Z,B,Z,B>Z', 'reference_of'),
+                     (_GET + "['expect']", 'F:Z,Z,B,Z,B>Z', 'expect_of')],
+             fragment=dict(first='df = ' + _GET, last="df['absolute'] = "),
+             returns=["df['absolute']"], ret='Q'),
+        # absolute_clonal, WHOLE: the call of absolute_dataframe (its table read through the column `absolute`, a
+        # function-typed input) and the column handed back
+        dict(name='absolute_clonal', coq='fn_absolute_clonal', py_params=_ABS_ARGS,
+             params=[('cnarr', 'Z', 'cnarr_id'), ('ploidy', 'Z'), ('purity', 'OQ'), ('is_haploid_x_reference', 'B'),
+                     ('diploid_parx_genome', 'Z', 'build_id'), ('is_sample_female', 'B'),
+                     ("absolute_dataframe['absolute']", 'F:Z,Z,OQ,B,Z,B>Q', 'absolute_of')],
+             ret='Q'),
         # do_call: `absolutes = absolute_clonal(...).clip(lower=0)`
         dict(name='do_call', coq='fn_clonal_clip', py_params=_DO_CALL,
              params=[('absolute_clonal(outarr, ploidy, purity, is_haploid_x_reference, diploid_parx_genome, is_sample_female)',
